@@ -13,7 +13,7 @@ ASSUMPTIONS = ['hashlib for MD5/SHA/BLAKE2', 'own MD4/SHA-0/BLAKE references', '
 ANCHORS = [('padding.py', 'blockiterator.iterblocks'), ('blake.py', 'Blake2.iterblocks'), ('blake.py', 'Blake2.update'), ('blake.py', 'Blake.update'),
            ('sha.py', 'SHA1.update'), ('sha.py', 'SHA2.update'), ('md.py', 'MD4.update'), ('md.py', 'MD5.update'),
            ('nilsimsa.py', 'Nilsimsa.update'), ('nilsimsa.py', 'Nilsimsa.digest')]
-REQUIRED = ['piecewise==oneshot', 'piecewise==reference', 'bitcnt-after-piece', 'nilsimsa:cut==oneshot', 'nilsimsa:cut==model']
+REQUIRED = ['interleaved:piecewise==reference', 'piecewise==oneshot', 'piecewise==reference', 'bitcnt-after-piece', 'nilsimsa:cut==oneshot', 'nilsimsa:cut==model']
 NSHARDS = 14
 SAN = {'quick': (2, 40), 'thorough': (2, 40)}
 HASHES = c01.ALGS + ['blake224', 'blake256', 'blake384', 'blake512', 'blake2b', 'blake2s']
@@ -59,6 +59,8 @@ def cases(tier, rng):
         if tier == 'thorough':
             for j in range(30):
                 yield {'k': 'long', 'h': name, 'j': j}
+    for j in range(len(HASHES) * (6 if tier == 'quick' else 40)):
+        yield {'k': 'interleaved', 'h': HASHES[j % len(HASHES)], 'other': HASHES[(j * 7 + j // len(HASHES)) % len(HASHES)], 'j': j}
     for n in range(0, 65 if tier == 'thorough' else 41):
         yield {'k': 'nil-allcuts', 'n': n, 'target': [None, 53, 11, 200][n % 4]}
     for j in range(40 if tier == 'quick' else 600):
@@ -106,6 +108,33 @@ def run(case, ctx, rng):
             if pieces:
                 ctx.eq('bitcnt-after-piece', got[1], want, **det)
         ctx.eq('oneshot==reference', one, ext, **det)
+    elif k == 'interleaved':
+        # history across objects: two streams fed alternately, a new object constructed and one-shot calls made mid-stream
+        name, other = case['h'], case['other']
+        B, w = info(name); B2, w2 = info(other)
+        ctx.cls((name, 'interleaved-with', other, case['j'] % 3))
+        M = rng.randbytes(3 * B + rng.choice([0, 1, B - 1])); N = rng.randbytes(2 * B2 + rng.choice([0, 5]))
+        def run_():
+            h1 = make(name); h2 = make(other)
+            h1.initstate(); h2.initstate()
+            h1.update(M[:B]); c1 = h1.padmethod.bitcnt
+            h2.update(N[:B2])
+            h3 = make(name)                       # a sibling of the same geometry appears mid-stream
+            one = h3(M[:7])
+            h1.update(M[B:2 * B]); c2 = h1.padmethod.bitcnt
+            make(other)(N)                        # a one-shot call on yet another object
+            d2 = h2.update(N[B2:], padding=True)
+            d1 = h1.update(M[2 * B:], padding=True)
+            return d1, d2, one, (c1, c2)
+        got = call(run_)
+        det = dict(h=name, other=other, lenM=len(M), lenN=len(N))
+        if is_exc(got):
+            ctx.eq('interleaved:piecewise==reference', got, external(name, M), **det)
+        else:
+            ctx.eq('interleaved:piecewise==reference', got[0], external(name, M), **det)
+            ctx.eq('interleaved:piecewise==reference', got[1], external(other, N), stream='second', **det)
+            ctx.eq('interleaved:piecewise==reference', got[2], external(name, M[:7]), stream='one-shot sibling', **det)
+            ctx.eq('bitcnt-after-piece', list(got[3]), [8 * B, 16 * B], interleaved=True, **det)
     elif k == 'nil-allcuts':
         from crysp.nilsimsa import Nilsimsa
         n, t = case['n'], case['target']
